@@ -241,18 +241,21 @@ def run_case(case: Dict[str, Any], ctx) -> None:
             if "metrics" not in a.meta:
                 dc.add(n.name)
                 continue
-            v1 = same_scale(n, a, rtol)
-            # nearest surviving ancestor (the input may itself have been removed a moment ago)
+            # The helper compares with whatever the node's input is at that moment: the direct input, or - if that was pruned a
+            # moment ago - the nearest surviving ancestor. Where an ancestor's own fate is open (don't-care), both readings are
+            # possible: the verdict is only fixed when every candidate reference gives the same answer.
+            cands = [a]
             b = a
             while b.name in removed_so_far or b.name in dc:
                 fb = float_inputs(b)
                 if len(fb) != 1 or "metrics" not in fb[0].meta:
                     break
                 b = fb[0]
-            v2 = same_scale(n, b, rtol) if b is not a else v1
-            if v1 is None or v2 is None or v1 != v2:
+                cands.append(b)
+            verdicts = {same_scale(n, c, rtol) for c in cands}
+            if len(verdicts) != 1 or None in verdicts:
                 dc.add(n.name)
-            elif v1:
+            elif True in verdicts:
                 must.add(n.name)
                 removed_so_far.add(n.name)
         compare(g3, "prune_same_scale_tensors", must, dc, f"rtol=2^{int(round(__import__('math').log2(rtol)))}")
